@@ -10,6 +10,16 @@ from vlib import run_lines
 KNOWN = {"c-free-helper-skips-shared-anon-type", "c-dtor-export-snake-case"}
 
 def run(c):
+    try:
+        _run(c)
+    finally:
+        # a run against a repo copy (VERIF_REPO) must not leave its tables in the shared Lean tree
+        import os as _os, subprocess as _sp, sys as _sys
+        from vlib import VERIF as _V, REPO as _R
+        if _os.path.realpath(_R) != "/repo":
+            _sp.run([_sys.executable, _os.path.join(_V, "tools", "gen_cdtor.py")], env=dict(_os.environ, VERIF_REPO="/repo"), stdout=_sp.DEVNULL, stderr=_sp.DEVNULL)
+
+def _run(c):
     c.level = "proof"
     c.rule = ("one evaluation = one ownership obligation checked on one call: frees of the argument buffers by the generated "
               "helpers, frees by post-return, untouched import arguments, ledger balance, borrow drops, resource intrinsic / "
